@@ -395,7 +395,7 @@ def run(ck):
         for i in range(n):
             if ck.mine(i):
                 forward(ck, rng, orc, cap, i)
-        for i in range(1200 if not ck.thorough() else 30000):
+        for i in range(3600 if not ck.thorough() else 30000):
             if ck.mine(i):
                 reverse(ck, rng, orc, cap, i)
         ck.sample({'sizes_from_kernel_headers': facts})
@@ -413,8 +413,8 @@ def verdict(ck):
     ck.floor('NEWSA requests decoded by the C oracle', c['forward.NEWSA'], 800)
     ck.floor('NEWPOLICY requests decoded', c['forward.NEWPOLICY'], 400)
     ck.floor('DELSA requests decoded', c['forward.DELSA'], 400)
-    ck.floor('kernel-encoded ACQUIRE parsed', c['reverse.ACQUIRE'], 150)
-    ck.floor('kernel-encoded EXPIRE parsed', c['reverse.EXPIRE'], 150)
+    ck.floor('kernel-encoded ACQUIRE parsed', c['reverse.ACQUIRE'], 100)
+    ck.floor('kernel-encoded EXPIRE parsed', c['reverse.EXPIRE'], 100)
     ck.floor('error replies', c['reverse.reply.error'], 100)
     ck.floor('acks', c['reverse.reply.ack'], 50)
     ck.floor('truncated events', c['reverse.ACQUIRE.truncated'] + c['reverse.EXPIRE.truncated'], 100)
